@@ -228,11 +228,24 @@ func foldRegObj(in *RegObj, v structform.ExtVisitor) error {
 	return v.OnObjectFinished()
 }
 
+// RegW has the shape of a pointer (one pointer field) and a registered folder.
+type RegW struct{ P *int }
+
+func foldRegW(in *RegW, v structform.ExtVisitor) error {
+	if in == nil {
+		return v.OnNil()
+	}
+	if in.P == nil {
+		return v.OnString("W-")
+	}
+	return v.OnString(fmt.Sprintf("W%d", *in.P))
+}
+
 // userFolders is passed to every iterator the harness creates.
-var userFolders = gotype.Folders(foldRegT, foldRegObj)
+var userFolders = gotype.Folders(foldRegT, foldRegObj, foldRegW)
 
 var namedTypes = map[string]reflect.Type{
-	"RegT": reflect.TypeOf(RegT{}), "RegObj": reflect.TypeOf(RegObj{}),
+	"RegT": reflect.TypeOf(RegT{}), "RegObj": reflect.TypeOf(RegObj{}), "RegW": reflect.TypeOf(RegW{}),
 	"RecNode": reflect.TypeOf(RecNode{}), "RecTree": reflect.TypeOf(RecTree{}),
 	"RecMap": reflect.TypeOf(RecMap(nil)), "RecSl": reflect.TypeOf(RecSl(nil)), "UniT": reflect.TypeOf(UniT{}),
 	"MyInt": reflect.TypeOf(MyInt(0)), "MyStr": reflect.TypeOf(MyStr("")),
@@ -259,6 +272,7 @@ var namedUnder = map[string]TD{
 	"FoldMp":  {K: "map", E: []TD{{K: "int"}}},
 	"FoldObj": {K: "struct", F: []FD{{Name: "A", T: TD{K: "int"}}}},
 	"RegT":    {K: "struct", F: []FD{{Name: "A", T: TD{K: "int"}}}},
+	"RegW":    {K: "struct", F: []FD{{Name: "P", T: TD{K: "ptr", E: []TD{{K: "int"}}}}}},
 	"RegObj":  {K: "struct", F: []FD{{Name: "A", T: TD{K: "int"}}}},
 }
 
